@@ -752,16 +752,22 @@ class Context:
 
         def cbrt_fn(*args):
             x = to_number(args[0]) if args else float("nan")
+            if x == 0:
+                return x  # both zeros are their own cube root
             if x < 0:
                 return -((-x) ** (1 / 3))
             return x ** (1 / 3)
 
         def log2_fn(*args):
             x = to_number(args[0]) if args else float("nan")
+            if x == 0:
+                return float("-inf")
             return math.log2(x) if x > 0 else float("nan")
 
         def log10_fn(*args):
             x = to_number(args[0]) if args else float("nan")
+            if x == 0:
+                return float("-inf")
             return math.log10(x) if x > 0 else float("nan")
 
         def expm1_fn(*args):
@@ -773,6 +779,8 @@ class Context:
 
         def log1p_fn(*args):
             x = to_number(args[0]) if args else float("nan")
+            if x == -1:
+                return float("-inf")
             return math.log1p(x) if x > -1 else float("nan")
 
         # Set all methods
